@@ -9,6 +9,7 @@ from torch import Tensor
 from pfhedge._utils.doc import _set_attr_and_docstring
 from pfhedge._utils.doc import _set_docstring
 from pfhedge._utils.str import _format_float
+from pfhedge._utils.time import n_time_points
 from pfhedge._utils.typing import LocalVolatilityFunction
 from pfhedge._utils.typing import TensorOrScalar
 from pfhedge.stochastic import generate_local_volatility_process
@@ -123,7 +124,7 @@ class LocalVolatilityStock(BasePrimary):
 
         output = generate_local_volatility_process(
             n_paths=n_paths,
-            n_steps=ceil(time_horizon / self.dt + 1),
+            n_steps=n_time_points(time_horizon, self.dt),
             sigma_fn=self.sigma_fn,
             init_state=init_state,
             dt=self.dt,
